@@ -1485,6 +1485,10 @@ func gen(r *rand.Rand, i int) desc {
 			d.Decl = total
 		case 1:
 			d.Decl = max2(total+r.Intn(3)-1, 0)
+		case 2:
+			if total > 0 {
+				d.Decl = r.Intn(total) // the stream yields more than declared
+			}
 		}
 		return d
 	case x < 54:
@@ -1689,6 +1693,18 @@ func corpus() []desc {
 				c = append(c, desc{Op: "msgwt", Mk: mk, Support: sup, Size: 16, Budget: -1, Decl: total, Send: true, Segs: segs})
 			}
 			c = append(c, desc{Op: "msgwt", Mk: mk, Support: true, Size: 16, Budget: 60, Decl: -1, Send: true, Flush: true, Segs: segs})
+		}
+	}
+	// a stream that opted out of WriteTo and yields more than its declared size: surplus below and above the
+	// 4 KiB write buffer, small and large bufio.Writer (a flushing peer), requests and responses
+	for _, mk := range []string{"req", "resp"} {
+		for _, sup := range []bool{false, true} {
+			for _, size := range []int{16, 4096} {
+				c = append(c, desc{Op: "msgwt", Mk: mk, Support: sup, Size: size, Budget: -1, Decl: 5, Send: true, Segs: []hlib.B{hlib.B("hello "), hlib.B("world")}})
+				c = append(c, desc{Op: "msgwt", Mk: mk, Support: sup, Size: size, Budget: -1, Decl: 100, Send: true, Flush: true,
+					Segs: []hlib.B{bytes.Repeat([]byte("s"), 3000), bytes.Repeat([]byte("t"), 3000)}})
+				c = append(c, desc{Op: "msgwt", Mk: mk, Support: sup, Size: size, Budget: -1, Decl: 0, Send: true, Segs: []hlib.B{hlib.B("x")}})
+			}
 		}
 	}
 	// compressed streams dropped before / after the compressor goroutine has finished
